@@ -31,6 +31,7 @@ type tsoRunCfg struct {
 	enumCrashAtCommit  int // >0: crash the issuing node right after its k-th commit while it is the recorded leader
 	intruder           bool
 	allocIDClients     bool
+	staleTerm          bool // scripted nemesis: the leader is cut off from etcd across a term of another member
 }
 
 func runTSOWorld(rc *core.RunCtx, cfg tsoRunCfg, setup func(o *tsoOracle)) {
@@ -96,6 +97,15 @@ func runTSOWorld(rc *core.RunCtx, cfg tsoRunCfg, setup func(o *tsoOracle)) {
 	nReq := 10 + rc.Knob("requests", 40)
 	gap := rc.KnobD("client_gap", 0, 20*time.Millisecond, 400*time.Millisecond)
 	running := 0
+	if cfg.staleTerm {
+		// the run lasts as long as the script; the clients spread their requests over it
+		running++
+		e.startStaleTermScript(&running)
+		if gap < 400*time.Millisecond {
+			gap = 400 * time.Millisecond
+		}
+		nReq += 40
+	}
 	for c := 0; c < nClients; c++ {
 		running++
 		e.tsoClient(fmt.Sprintf("tso-client-%d", c), o, tsoClientCfg{nReq: nReq, maxGap: gap, bigCount: c%2 == 1, pLeader: 0.75}, &running)
@@ -256,6 +266,11 @@ func init() {
 				cfg.minNodes = 1
 				cfg.enumCrashAtCommit = 1 + (rc.Run/2)%enumM
 				rc.Knobs["crash_after_leader_commit"] = cfg.enumCrashAtCommit
+			} else if rc.Run%8 == 3 {
+				// requests of the leader stay in flight across a whole term of another member
+				rc.Mode = "stale-term"
+				cfg.minNodes, cfg.maxNodes = 2, 3
+				cfg.staleTerm = true
 			} else {
 				rc.Mode = "faults"
 				cfg.faults = true
